@@ -41,6 +41,9 @@ THEOREMS = [
     "TornadoModel.C40.join_returns",
     "TornadoModel.C40.close_can_wake",
     "TornadoModel.C40.selected_reports_ready",
+    "TornadoModel.C40.invExit_step",
+    "TornadoModel.C40.exit_only_after_closing",
+    "TornadoModel.C40.quiescent_nothing_ready",
 ]
 TRUSTED = [
     "atomicity: steps of the model are atomic because the code holds _select_cond there or uses one thread-safe primitive (socket send/recv, select returning, call_soon_threadsafe) — GIL / threading.Condition / asyncio contracts",
@@ -58,8 +61,9 @@ EXHAUSTIVE = {"quick": False, "thorough": False}
 CLAUSES = {
     "at most one select call is in progress": "token_unique, at_most_one_select, assert_never_fails, post_finds_args_empty",
     "every readiness of an fd that stays registered is eventually dispatched on the event-loop thread":
-        "safety half proved: wake_invariant, waker_always_captured, stale_select_returns, selected_reports_ready; "
-        "liveness (no_lost_event_goal) tie only: settle-phase oracle Spec.lost on every execution",
+        "safety form proved: quiescent_nothing_ready (a quiescent system has no registered ready fd), wake_invariant, "
+        "waker_always_captured, stale_select_returns, selected_reports_ready; "
+        "bounded-rounds liveness under fairness (no_lost_event_goal) tie only: settle-phase oracle Spec.lost on every execution",
     "callbacks never run on the selector thread": "callbacks_on_loop_thread (structural) + thread identity observed in every execution",
     "close always returns with the selector thread stopped": "close_can_wake, close_progress, close_rank_decreases, join_returns",
     "real executions are executions of the model": "tie only: every recorded execution is accepted by Model.step and ends in the model's final state",
